@@ -1143,3 +1143,154 @@ pub async fn run_peer_initiated_listener() {
     }
     sim::probe("pending-listener-call-failed-with-the-peers-reason");
 }
+
+// ---------------------------------------------------------------------------------------
+// The session or the connection stops while a sender is being resumed: the link was detached with an
+// unsettled delivery outstanding, resume() has written its attach and waits for the peer's, and the
+// peer ends the session or closes the connection instead. resume() fails and says why; the outcome
+// of the outstanding delivery - awaited in another task, the detached sender kept alive inside the
+// error value - resolves with an error as well.
+
+pub async fn run_stop_during_resume() {
+    let kill_close = choice(2) == 0;
+    let with_error = choice(2) == 1;
+    let n_out = 1 + choice(3) as usize;
+    let ccfg = EndpointCfg::default_cfg();
+    let (nab, nba, nd) = world::draw_net(false);
+    sim::set_config(format!("variant=stop-during-resume kill={} with-error={} outstanding={} {}", if kill_close { "close" } else { "end" }, with_error, n_out, nd));
+    sim::mark_nontrivial();
+    sim::set_panic_is_violation(true);
+    let cvp = match peer::client_vs_peer(&ccfg, peer::open("peer", Some(65536), Some(255), None), nab, nba, Models::none()).await {
+        Some(x) => x,
+        None => return,
+    };
+    let peer::ClientVsPeer { mut client, mut peer, net, .. } = cvp;
+    let mut ps = PeerSession::new(0, 0, 5000, 5000);
+    let begin_fut = sim::in_group(1, Session::builder().begin(&mut client));
+    let peer_begin = async {
+        let b = peer.expect(wire::BEGIN).await?;
+        ps.on_remote_begin(b.perf.as_ref().unwrap(), b.channel);
+        peer.send(ps.channel, &peer::begin(Some(b.channel), ps.next_outgoing_id, ps.incoming_window, ps.outgoing_window)).await;
+        Some(())
+    };
+    let mut session = match sim::op("begin", world::join2(begin_fut, peer_begin)).await {
+        Some((Ok(s), Some(()))) => s,
+        _ => return,
+    };
+    let att = sim::in_group(1, Sender::builder().name("S").target("q").sender_settle_mode(SenderSettleMode::Unsettled).attach(&mut session));
+    let peer_att = async {
+        peer.expect(wire::ATTACH).await?;
+        peer.send(ps.channel, &peer::attach(&AttachArgs::receiver("S", 4))).await;
+        let mut f = ps.flow_args();
+        f.handle = Some(4);
+        f.delivery_count = Some(0);
+        f.link_credit = Some(50);
+        peer.send(ps.channel, &peer::flow(&f)).await;
+        Some(())
+    };
+    let mut sender = match sim::op("attach", world::join2(att, peer_att)).await {
+        Some((Ok(s), Some(()))) => s,
+        _ => return,
+    };
+    // unsettled deliveries whose outcomes are awaited elsewhere
+    let outcomes: Rc<RefCell<Vec<String>>> = Rc::new(RefCell::new(Vec::new()));
+    for i in 0..n_out {
+        match sim::op("send_batchable", sender.send_batchable(msgs::gen_message(700 + i as u64, 80, 1))).await {
+            Some(Ok(f)) => {
+                let outcomes = outcomes.clone();
+                sim::spawn("app-outcome", async move {
+                    if let Some(r) = sim::op(&format!("outcome of delivery {} sent before the detach", i), f).await {
+                        outcomes.borrow_mut().push(format!("{:?}", r));
+                    }
+                });
+            }
+            Some(Err(e)) => {
+                sim::violation("send-failed", format!("{:?}", e));
+                return;
+            }
+            None => return,
+        }
+    }
+    // the transfers arrive; nothing is settled
+    for _ in 0..n_out {
+        if peer.expect(wire::TRANSFER).await.is_none() {
+            sim::violation("deliveries-missing", "a batchable send put no transfer on the wire".into());
+            return;
+        }
+        ps.on_transfer_received();
+    }
+    // detach, answered
+    let det = sender.detach();
+    let peer_det = async {
+        peer.expect(wire::DETACH).await?;
+        peer.send(ps.channel, &peer::detach(4, false, None)).await;
+        Some(())
+    };
+    let detached = match sim::op("detach", world::join2(det, peer_det)).await {
+        Some((Ok(d), Some(()))) => d,
+        Some((r, _)) => {
+            sim::violation("detach-failed", format!("{:?}", r.map(|_| ()).map_err(|(_, e)| e)));
+            return;
+        }
+        None => return,
+    };
+    if !peer::settle(&mut peer, &net, |_| {}).await {
+        return;
+    }
+    // resume: the attach is written, the peer stops instead of answering
+    let (cond, desc) = if kill_close { ("amqp:connection:forced", "closed-during-resume") } else { ("amqp:session:unattached-handle", "ended-during-resume") };
+    let resume = detached.resume();
+    let stop = async {
+        peer.expect(wire::ATTACH).await?;
+        let err = if with_error { Some(peer::error(cond, Some(desc))) } else { None };
+        if kill_close {
+            peer.send(0, &peer::close(err)).await;
+        } else {
+            peer.send(ps.channel, &peer::end(err)).await;
+        }
+        sim::fault("peer-stops-while-a-sender-is-resuming");
+        Some(())
+    };
+    let (resumed, _) = match sim::op("resume (the peer stops instead of answering)", world::join2(resume, stop)).await {
+        Some(x) => x,
+        None => return,
+    };
+    // the error value holds the detached sender: the application keeps it
+    let kept = match resumed {
+        Ok(_) => {
+            sim::violation("operation-succeeded-after-peer-stop", "the peer stopped instead of answering the resuming attach; resume() returned a sender".into());
+            return;
+        }
+        Err(e) => {
+            let k = format!("{:?}", e.kind);
+            if with_error && !k.contains(desc) {
+                sim::violation("peer-error-not-carried", format!("the peer stopped with {} '{}' while resume() was pending; it returned {}", cond, desc, k));
+                return;
+            }
+            e
+        }
+    };
+    // the outcomes resolve (the pending-operation table would show the ones that do not)
+    let td = async {
+        let deadline = tokio::time::Instant::now() + sim::OP_DEADLINE + std::time::Duration::from_secs(30);
+        while outcomes.borrow().len() < n_out && tokio::time::Instant::now() < deadline && !sim::has_violation() {
+            sim::sleep_ms(50).await;
+        }
+        let _ = tokio::time::timeout(std::time::Duration::from_secs(20), session.end()).await;
+        let _ = tokio::time::timeout(std::time::Duration::from_secs(20), client.close()).await;
+    };
+    let _ = world::join2(td, peer::serve_teardown(&mut peer, 30_000)).await;
+    if sim::has_violation() {
+        return;
+    }
+    for o in outcomes.borrow().iter() {
+        if o.starts_with("Ok") {
+            sim::violation("operation-succeeded-after-peer-stop", format!("nothing was settled; an outcome resolved as {}", o));
+            return;
+        }
+    }
+    if outcomes.borrow().len() == n_out {
+        sim::probe("outcomes-of-a-resuming-sender-failed-with-the-session");
+    }
+    drop(kept);
+}
